@@ -7,7 +7,7 @@ import os
 import shutil
 import tempfile
 
-from .. import build, sched, rfc5545
+from .. import build, sched, rfc5545, xxh
 from ..common import (Run, Part, CaseServer, HarnessCrash, pmap, rng_for, build_or_die, NCPU)
 
 PROP = "C04"
@@ -117,8 +117,18 @@ def build_history(rng, srv, spool, tier):
     incs = {}
     timeline = []          # (time, kind, payload)
     tasks = {}
+    # in two histories out of five the UIDs crowd the end of the daemon's task table (home slots 29..31 of 32, i.e. 13..15
+    # of 16), so that their probe sequences wrap around to slot 0: cancel, replace and retirement then work on a cluster
+    uids = ["t%d@verif" % i for i in range(ntasks)]
+    if rng.random() < 0.4:
+        uids, n = [], rng.randint(0, 10 ** 6)
+        while len(uids) < ntasks:
+            n += 1
+            u = "c%d@verif" % n
+            if (xxh.xxh32(u) & 31) >= 29:
+                uids.append(u)
     for i in range(ntasks):
-        uid = "t%d@verif" % i
+        uid = uids[i]
         owner = rng.choice(users)
         text, per = gen_task(rng, uid, now, span)
         t_add = now + rng.choice([0, 0, 0.5, span * 0.1, span * 0.3])
